@@ -28,7 +28,7 @@ ASSUMPTIONS = [
     'ZODB.DB.TimeStamp is replaced during the symbolic part by the ordering contract of persistent.TimeStamp on raw '
     '8-byte values (raw(), laterThan(self) = next raw value); the concrete part and replays use the real TimeStamp',
     'the historical connection pool\'s dict (keyed by the bound) is replaced by a hash-free mapping so that the bound stays symbolic',
-    'history G1 built through the real DB layer; the bound must not be older than the last pack (no pack in G1)',
+    'history G1 built through the real DB layer; shard packed: G1 packed to the time of its 5th transaction, bounds later than that',
     'datetime forms: instants of the history +- 1 microsecond chosen by a symbolic selector (datetime arithmetic itself '
     'is library code and is concretised)',
 ]
@@ -76,7 +76,7 @@ def _expected(m, bound):
     return GR.state_at(m, bound)
 
 
-def h_bound(tid: bytes, form: str, live_commit: bool) -> None:
+def h_bound(tid: bytes, form: str, live_commit: bool, packed: bool = False) -> None:
     assume(len(tid) == 8)
     with untraced():
         from ZODB.POSException import POSKeyError, ReadOnlyHistoryError, ReadOnlyError
@@ -85,6 +85,21 @@ def h_bound(tid: bytes, form: str, live_commit: bool) -> None:
         s = g.s
         m = GR.model_from_storage(s)
         last = m.last_tid()
+        stop = None
+        always = None
+        if packed:
+            # the history was packed to a time in its middle: points not older than that pack still show what they showed
+            from ZODB.serialize import referencesf
+            from persistent.TimeStamp import TimeStamp as _TS
+            mid = m.txns[4].tid
+            s.pack(_TS(mid).timeTime() + 0.0001, referencesf)
+            stop = (int.from_bytes(mid, 'big') + 2 ** 20).to_bytes(8, 'big')
+            # objects reachable in every state from the pack time on (the others may legitimately be collected)
+            for t_ in m.txns:
+                if t_.tid > mid:
+                    r_ = GR.reachable(GR.state_at(m, t_.tid))
+                    always = r_ if always is None else (always & r_)
+            always &= GR.reachable(GR.state_at(m, b'\xff' * 8))
         real_ts = DBM.TimeStamp
         DBM.TimeStamp = RawTS
         from zverif.symenv.containers import AssocDict
@@ -98,6 +113,8 @@ def h_bound(tid: bytes, form: str, live_commit: bool) -> None:
             assume(tid < b'\xff' * 8)
             bound = succ(tid)
             kw = dict(at=tid)
+        if packed:
+            assume(bound > stop)                             # "not older than the last pack"
         future = bound > succ(last)
         try:
             hc = g.db.open(g.tm.__class__(), **kw)           # traced: getTID, future check, Connection.__init__
@@ -117,7 +134,7 @@ def h_bound(tid: bytes, form: str, live_commit: bool) -> None:
                 g.commit('live commit while historical connection is open')
         exp = None
         with untraced():
-            oids = m.oids()
+            oids = m.oids() if always is None else sorted(always)
         for o in oids:
             try:
                 got = hc._storage.load(o)               # traced: HistoricalStorageAdapter.load -> loadBefore(oid, bound)
@@ -358,8 +375,8 @@ HARNESSES = [
             bounds='history G1 (9 transactions, 7 objects)', oracle='RevStore state at the bound; reachability',
             code=['DB.open', 'DB.getTID', 'HistoricalStorageAdapter.load/store', 'Connection.__init__ (before)', 'Connection.commit '
                   '(ReadOnlyHistoryError)', 'FileStorage.loadBefore'],
-            quick=dict(timeout=170, shards=shards(form=['before', 'at'], live_commit=[True])),
-            thorough=dict(timeout=900, shards=shards(form=['before', 'at'], live_commit=[True, False]))),
+            quick=dict(timeout=170, shards=shards(form=['before', 'at'], live_commit=[True], packed=[False]) + shards(form=['before'], live_commit=[False], packed=[True])),
+            thorough=dict(timeout=900, shards=shards(form=['before', 'at'], live_commit=[True, False], packed=[False, True]))),
     Harness('multidb_bound', h_multidb_bound,
             decides='in a multi-database the connection to another database obtained from a historical connection shows every '
                     'object of that database exactly as of the same 8-byte bound (given as at= or before=)',
